@@ -28,16 +28,27 @@ def topStreams (s : SS) (ids : List Nat) : List Nat :=
 
 /-- run the model's reader loop, taking the heap's choice from the implementation's own output
     whenever that choice is one the heap may make (a buffered stream of maximal length) -/
-partial def simulate (d : DictFn) (ids : List Nat) (s : SS) (implStreams : List Nat) (acc : List String) (fuel : Nat) :
-    List String :=
+partial def simulate (d : DictFn) (ids : List Nat) (s : SS) (implStreams : List Nat) (acc : List String) (fuel : Nat)
+    (implEnd : String := "") : List String :=
   if fuel = 0 then acc.reverse else
   let tops := topStreams s ids
+  let endOf := fun (r : MsgRes) (σ : Nat) =>
+    let pinned := match r with | .errCommand | .reject | .errBody | .errDecode => true | _ => false
+    endClass r ++ (if pinned then s!"@{σ}" else "")
   let pick : Option Nat :=
     match implStreams.head? with
     | some σ => if tops.contains σ then some σ else tops.head?
-    | none => tops.head?
+    | none =>
+      -- the last, failing read: when several buffers are equally long the heap's choice is not
+      -- determined and - the header not having been read completely - not observable either;
+      -- any choice whose outcome is the implementation's is accepted
+      match tops.find? (fun σ => match s.readMessage d (some σ) with
+          | ((.msg _, _), _) => false
+          | ((r, σ'), _) => endOf r σ' == implEnd) with
+      | some σ => some σ
+      | none => tops.head?
   match s.readMessage d pick with
-  | ((.msg m, σ), s') => simulate d ids s' implStreams.tail (s!"{σ}:{m.hdr.hbh}" :: acc) (fuel - 1)
+  | ((.msg m, σ), s') => simulate d ids s' implStreams.tail (s!"{σ}:{m.hdr.hbh}" :: acc) (fuel - 1) implEnd
   | ((r, σ), _) =>
     -- the stream is reported only when the header was read completely (`SetCurrentStream`)
     let pinned := match r with | .errCommand | .reject | .errBody | .errDecode => true | _ => false
@@ -77,7 +88,7 @@ def judgeSctpDemux (d : DictRt) (fin : Fin) (chunkTok : String) (impl : List Str
   let implMsgs := impl.filterMap parseTagged
   let endTok := impl.getLast?.getD ""
   let endAt := match endTok.splitOn "@" with | [_, x] => x.toNat?.toList | _ => []
-  let model := simulate dfn ids s0 (implMsgs.map (·.1) ++ endAt) [] (chunks.length * 200 + 10)
+  let model := simulate dfn ids s0 (implMsgs.map (·.1) ++ endAt) [] (chunks.length * 200 + 10) endTok
   let fails := perStreamVerdict dfn chunks fin implMsgs (endTok = "eof")
   let endTok := (endTok.splitOn "@").headD ""
   { model := " ".intercalate model, fails := fails,
